@@ -851,76 +851,68 @@ def _rename_map(j):
     sp = os.path.join(os.path.dirname(vp), 'vocab_sigs.json')
     sigs = json.load(open(sp)) if os.path.exists(sp) else {}
     out = {}
+    import itertools
 
     def key(inputs, output):
         return (tuple(sorted(inputs or [])), output)
-    gk = {}
-    for g in gone:
-        sg = sigs.get(g)
-        if sg is not None:
-            gk.setdefault((parent(g), key(sg[0], sg[1])), []).append(g)
-    nk = {}
-    for n in new:
-        nk.setdefault((parent(n), key(have[n].get('inputs'), have[n].get('output'))), []).append(n)
-    # a vanished function and a new one are the same function only if they are the ONLY vanished / new function of their
-    # parent with that (order-insensitive) signature
-    for k, gs in gk.items():
-        ns = nk.get(k, [])
-        if len(gs) == 1 and len(ns) == 1:
-            out[ns[0]] = gs[0]
-    # several vanished / new functions with one signature under one parent: tell them apart by the functions they call
+
+    def relax(ty):
+        # by-value versus by-reference parameters, lifetimes: not part of a function's identity
+        ty = re.sub(r"'\w+\s*,?\s*", '', ty or '')
+        ty = re.sub(r'&\s*(mut\s+)?', '', ty)
+        return ty.replace('<>', '').strip()
+
+    def rkey(inputs, output):
+        return (tuple(sorted(relax(x) for x in (inputs or []))), relax(output))
     fpp = os.path.join(os.path.dirname(vp), 'vocab_fp.json')
-    if os.path.exists(fpp) and len(out) < len(gone):
-        reffp = json.load(open(fpp))
+    reffp = json.load(open(fpp)) if os.path.exists(fpp) else {}
+
+    def fp_new(n, names):
+        cs = []
+        for blk in have[n]['blocks']:
+            tt = blk['term']
+            if tt['k'] == 'call':
+                nm = short(tt['callee'].get('resolved') or tt['callee'].get('path', 'indirect'))
+                if nm not in names:
+                    cs.append(nm)
+        return set(cs)
+
+    def sim(sa, sb):
+        if not sa and not sb:
+            return 1.0
+        return len(sa & sb) / float(len(sa | sb))
+
+    def match_pass(scope, keyf):
+        left_g = [g for g in gone if g not in out.values() and g in sigs]
+        left_n = [n for n in new if n not in out]
+        gk, nk = {}, {}
+        for g in left_g:
+            gk.setdefault((scope(g), keyf(sigs[g][0], sigs[g][1])), []).append(g)
+        for n in left_n:
+            nk.setdefault((scope(n), keyf(have[n].get('inputs'), have[n].get('output'))), []).append(n)
         for k, gs in gk.items():
             ns = nk.get(k, [])
-            if len(gs) < 2 or len(gs) != len(ns):
-                continue
-            names = set(short(x) for x in gs) | set(short(x) for x in ns)
-
-            def fp_new(n):
-                cs = []
-                for blk in have[n]['blocks']:
-                    tt = blk['term']
-                    if tt['k'] == 'call':
-                        nm = short(tt['callee'].get('resolved') or tt['callee'].get('path', 'indirect'))
-                        if nm not in names:
-                            cs.append(nm)
-                return sorted(cs)
-            fg = {g: sorted(x for x in reffp.get(g, []) if x not in names) for g in gs}
-            fn = {n: fp_new(n) for n in ns}
-            pairs = {}
-            okp = True
-
-            def sim(a, b0):
-                sa, sb = set(a), set(b0)
-                if not sa and not sb:
-                    return 1.0
-                return len(sa & sb) / float(len(sa | sb))
-            for g in gs:
-                sc = sorted(((sim(fg[g], fn[n]), n) for n in ns), reverse=True)
-                if sc[0][0] < 0.5 or (len(sc) > 1 and sc[0][0] - sc[1][0] < 0.25) or sc[0][1] in pairs.values():
-                    okp = False
-                    break
-                pairs[g] = sc[0][1]
-            if okp:
-                for g, n in pairs.items():
-                    out[n] = g
-    if len(out) < len(gone):
-        # second chance across parents of one module (a function moved to another impl block / became a free function)
-        left_g = [g for g in gone if g not in out.values()]
-        left_n = [n for n in new if n not in out]
-        gm, nm = {}, {}
-        for g in left_g:
-            sg = sigs.get(g)
-            if sg is not None:
-                gm.setdefault((module(g), key(sg[0], sg[1])), []).append(g)
-        for n in left_n:
-            nm.setdefault((module(n), key(have[n].get('inputs'), have[n].get('output'))), []).append(n)
-        for k, gs in gm.items():
-            ns = nm.get(k, [])
             if len(gs) == 1 and len(ns) == 1:
+                # the ONLY vanished / new function of its scope with that (order-insensitive) signature
                 out[ns[0]] = gs[0]
+            elif 2 <= len(gs) == len(ns) <= 5 and reffp:
+                # several with one signature: the assignment that maximises the overlap of the functions they call
+                names = set(short(x) for x in gs) | set(short(x) for x in ns)
+                fg = {g: set(x for x in reffp.get(g, []) if x not in names) for g in gs}
+                fn = {n: fp_new(n, names) for n in ns}
+                sc = []
+                for pm in itertools.permutations(ns):
+                    sc.append((sum(sim(fg[g], fn[n]) for g, n in zip(gs, pm)), pm))
+                sc.sort(key=lambda x: -x[0])
+                if sc[0][0] - sc[1][0] >= 0.25 and all(sim(fg[g], fn[n]) >= 0.3 for g, n in zip(gs, sc[0][1])):
+                    for g, n in zip(gs, sc[0][1]):
+                        out[n] = g
+    match_pass(parent, key)
+    if len(out) < len(gone):
+        match_pass(parent, rkey)
+    if len(out) < len(gone):
+        # across parents of one module (a function moved to another impl block / became a free function)
+        match_pass(module, key)
     return out
 
 
